@@ -535,6 +535,35 @@ Proof.
   - apply ex_prog_valid.
 Qed.
 
+Example seek_exact_ex :
+  forall v, In v [VGtreap; VBolt; VLdb; VMoss incr_strip] ->
+  (* after an arbitrary program, Seek(61 ff 00) then one Next: the second entry with prefix 61 at or after the key *)
+  last (iter_run (prefix_iterator v ex_map (Some [97])) (ex_prog ++ ISeek [97; 255; 0] :: repeat INext 1)) None
+  = Some ([97; 255; 255], [68]).
+Proof.
+  intros v Hv. rewrite seek_exact_prefix.
+  - vm_compute. reflexivity.
+  - cbn in Hv. destruct Hv as [<-|[<-|[<-|[<-|[]]]]]; try exact I. apply variant_repaired_strip.
+  - apply ex_map_sorted.
+  - apply ex_map_valid.
+  - reflexivity.
+  - apply ex_prog_valid.
+  - reflexivity.
+Qed.
+
+Example seek_exact_ex2 :
+  forall v, In v [VGtreap; VBolt; VLdb; VMoss incr_carry] ->
+  last (iter_run (range_iterator v ex_map (Some [0]) None) (ex_prog ++ ISeek [97; 255; 0] :: repeat INext 2)) None
+  = Some ([98], [69]).
+Proof.
+  intros v Hv. rewrite seek_exact_range.
+  - vm_compute. reflexivity.
+  - apply ex_map_sorted.
+  - reflexivity.
+  - apply ex_prog_valid.
+  - reflexivity.
+Qed.
+
 (* --- moss with TODAY's incrementBytes: the statement of prefix_iter_exact is false.
    Prefix 61 ff: incrementBytes carries to 62 00, so the key 62 lies inside [61 ff, 62 00) and the
    iterator returns it although it does not have the prefix. *)
